@@ -536,7 +536,14 @@ BATCHES = {
     "weights": {"csub": 1, "pub": 12, "pull": 14, "ack": 3, "mod": 3, "adv": 5, "stats": 3, "sopen": 3, "sread": 4, "ssend": 1, "sdrop": 1},
 }
 
-PROFILES = {"general": GENERAL, "data": DATA_PLANE, "deadlines": DEADLINES, "namespace": NAMESPACE,
+LISTING = {
+    # many names in few projects, deletions from the middle of the creation order, walks with all page sizes
+    "projects": ["p1", "p2"], "topics": ["t1", "t2", "t3", "t4", "t5", "t6", "t7"], "subs": ["s1", "s2", "s3", "s4", "s5", "s6", "s7"],
+    "drain": False,
+    "weights": {"ctopic": 14, "dtopic": 7, "csub": 14, "dsub": 7, "lists": 12, "gsub": 1, "pub": 1},
+}
+
+PROFILES = {"listing": LISTING, "general": GENERAL, "data": DATA_PLANE, "deadlines": DEADLINES, "namespace": NAMESPACE,
             "malformed": MALFORMED, "batches": BATCHES}
 
 
@@ -568,7 +575,29 @@ def bigbacklog_case(r):
     return ops
 
 
+def bigmsg_case(r):
+    """Large payloads (MiB range; each Publish stays below the 4 MiB request limit) queued together and
+    pulled with room for all of them: order, contiguity and content must not depend on message size."""
+    t, sub = tname("p1", "t1"), sname("p1", "s1")
+    ops = ["new", "ctopic " + hx(t), "csub %s %s 10 -" % (hx(sub), hx(t))]
+    sizes = r.choice([[3 << 20, 2 << 20, 1], [1, 3 << 20, 1 << 20, 2], [2 << 20, 2 << 20, 7, 1 << 20], [3 << 20, 1, 3 << 20, 1]])
+    for k, n in enumerate(sizes):
+        b = bytes([65 + k]) * n
+        ops.append("pub %s %s" % (hx(t), b.hex()))
+    ops.append("stats " + hx(sub))
+    ops.append("pull %s %d 1" % (hx(sub), r.choice([10, 1000, len(sizes)])))
+    ops.append("pull %s 1000 1" % hx(sub))
+    ops.append("stats " + hx(sub))
+    ops.append("adv 10300000")
+    ops.append("pull %s 2 1" % hx(sub))
+    ops.append("pull %s 1000 1" % hx(sub))
+    ops.append("stats " + hx(sub))
+    return ops
+
+
 def cases(rng, profile_name, n_cases, max_len):
+    if profile_name == "bigmsg":
+        return [bigmsg_case(rng.fork("bigmsg/%d" % i)) for i in range(n_cases)]
     if profile_name == "bigbacklog":
         return [bigbacklog_case(rng.fork("bigbacklog/%d" % i)) for i in range(n_cases)]
     out = []
